@@ -5,7 +5,7 @@ import warnings
 
 from .common import Suite, errname, merge
 
-GEN_UNITS = ["Disabled"]
+GEN_UNITS = ["Disabled", "ContextPolicy", "DisabledHashers"]
 LEAN_TARGETS = ["PasslibVerif.Props.C18"]
 ASSUMPTIONS = [
     "schemes listed before the disabled hasher do not claim marker-led or empty strings (true of every non-catch-all format; C17 checks the shipped contexts)",
